@@ -13,7 +13,7 @@
 // the call must be the whole right-hand side of an assignment / definition,
 // an expression statement, the whole operand of a return, or the whole (or
 // negated) condition of an if; the callee must be non-generic, non-variadic,
-// not recursive, and free of recover / goto and labelled statements; a defer is
+// not recursive, and free of recover and goto (labels are renamed per copy); a defer is
 // accepted when it is an unconditional, argument-less call at the top level of
 // the body (`defer mu.Unlock()`): the call is then made explicitly on every way
 // out behind it.
@@ -374,9 +374,10 @@ func eligibility(fd *ast.FuncDecl, obj *types.Func) string {
 		case *ast.LabeledStmt:
 			// labels written by an earlier round of this inliner are
 			// renumbered when the body is copied
-			if !ownLabel.MatchString(x.Label.Name) {
-				reason = "contains a labelled statement"
-			}
+			// ... and so are the labels the callee was written with (every
+			// label of a copied body gets a fresh name, and so do the break /
+			// continue statements that name it; goto is refused below)
+			_ = ownLabel
 		case *ast.BranchStmt:
 			if x.Tok == token.GOTO {
 				reason = "contains goto"
